@@ -192,11 +192,11 @@ func checkC14(c *Check) {
 				st := r.State
 				v, isC := st.rangeOf(r.Results[0]).IsConst()
 				if w.ok {
-					if !(isC && v == openSent && st.must["call:fsm.startReading"] && st.must["assign:holdTimer"] && !st.may["call:invoke:net.Conn.Close"]) {
+					if !(isC && v == openSent && (st.must["call:fsm.startReading"] || st.must["go:fsm.read"]) && st.must["assign:holdTimer"] && !st.may["call:invoke:net.Conn.Close"]) {
 						ok = false
 					}
 				} else {
-					if !(isC && v == idle && st.must["call:invoke:net.Conn.Close"] && !st.may["call:fsm.startReading"]) {
+					if !(isC && v == idle && st.must["call:invoke:net.Conn.Close"] && !st.may["call:fsm.startReading"] && !st.may["go:fsm.read"]) {
 						ok = false
 					}
 					if w.name != "Write fails" && st.may["call:invoke:net.Conn.Write"] {
